@@ -47,6 +47,30 @@ CHECKS = {
             "invariants: each partial aggregate is exactly the sum of the shares folded into it, no double counting, final = single pass. All >600k scripts "
             "replayed on AggregateShare over FieldV17/Field128/Field64/FieldPrio2 (created through the VDAFs' aggregate_init) and Poplar1FieldVec inner/leaf.",
             "Bounds: <= 5 shares, vectors of length 2-3, <= 9 operations; symmetry breaking on creation of empty aggregates (commutes with all other operations)."),
+    "C01": ("DESIGN.md#c01--prio3-end-to-end-honest-reports-verify-and-aggregate-exactly",
+            "TLA+ spec of Prio3 as functions over an XOF oracle table (Prio3.tla over Flp.tla); impl->spec trace validation of real Prio3 runs over tiny fields "
+            "with a recording XOF, TLC recomputing every byte and verdict; scenarios generated by TLC",
+            "Every byte of every message and every verdict of honest Prio3 executions (all shipped circuits, 2-5 aggregators, 1-3 proofs, three tiny fields incl. "
+            "the split-word one, random ctx/nonce/key/randomness, all messages through their wire encoding) is recomputed by TLC from the recorded XOF table; "
+            "honest/batch events assert output shares sum to the truncated encoding and the unsharded result is the plain aggregate mod P. FLP completeness for all "
+            "randomness is model-checked under C05.",
+            "Field-level recomputation on tiny-field instantiations of the same generic code; XOF bytes are an oracle; aggregator counts <= 5 and proofs <= 3 in traces."),
+    "C02": ("DESIGN.md#c02--prio3-robustness",
+            "Same Prio3 trace spec; adversarial scenario families (invalid inputs with honest proofs via a RawInput wrapper over the public Type trait; single-bit "
+            "tampering of every message byte position; dropped/duplicated verifier shares); exact verdicts recomputed by TLC on tiny fields",
+            "On a tiny field the model's exact accept set is the oracle: for each invalid input vector and each tampered byte position the implementation's "
+            "accept/reject at every stage and all outputs must equal the values TLC recomputes from the recorded XOF table.",
+            "Non-honest proofs only as single-bit deviations; negligible-probability clause is replaced by exact accept sets on tiny fields."),
+    "C17": ("DESIGN.md#c17--helper-shares-independent-of-the-measurement-leader-share-masked",
+            "Prio3 trace spec + pair events: two shardings with identical randomness/nonce and different measurements, validated byte-for-byte and related by TLC",
+            "For all consecutive measurement pairs of the TLC lattice: helper shares identical, leader blind identical, only the leader joint-rand part differs, "
+            "leader measurement share difference equals the encoding difference (exact in the tiny field).",
+            "Poplar1 clause under C03; pairs are consecutive lattice elements, not all pairs."),
+    "C18": ("DESIGN.md#c18--reports-are-bound-to-context-nonce-role-and-key",
+            "Prio3 trace spec with exact XOF query tuples (structural binding) + mismatch lattice executed on real code with exact verdicts recomputed by TLC",
+            "Structural: every derivation must query exactly (seed, version|class|alg id|usage|ctx, binder) as the spec prescribes or the trace is rejected. "
+            "Behavioural: ctx/nonce/key/id mismatches at one or all aggregators with TLC-computed exact verdicts incl. the documented nonce exception.",
+            "Tiny-field instantiations; Poplar1 binding under C03/C04."),
 }
 
 NOT_YET = {}
